@@ -706,13 +706,36 @@ fn pred_version_name(v: &in_toto::models::PredicateVer) -> &'static str {
     }
 }
 
-fn type_string(v: &str) -> &'static str {
-    match v {
-        "link02" => "https://in-toto.io/Link/v0.2",
-        "slsa01" => "https://slsa.dev/provenance/v0.1",
-        "slsa02" => "https://slsa.dev/provenance/v0.2",
-        _ => "https://example.com/unknown",
+static NEAR: std::sync::atomic::AtomicUsize = std::sync::atomic::AtomicUsize::new(0);
+
+fn type_string(v: &str) -> String {
+    let known = |v: &str| match v {
+        "link02" => Some("https://in-toto.io/Link/v0.2"),
+        "slsa01" => Some("https://slsa.dev/provenance/v0.1"),
+        "slsa02" => Some("https://slsa.dev/provenance/v0.2"),
+        _ => None,
+    };
+    if let Some(k) = known(v) {
+        return k.to_string();
     }
+    // nearly a known type string
+    if v.len() > 1 {
+        if let Some(k) = known(&v[..v.len() - 1]) {
+            let n = NEAR.fetch_add(1, std::sync::atomic::Ordering::Relaxed);
+            return match &v[v.len() - 1..] {
+                "+" => format!("{k}{}", ["0", "-draft", "/", " ", ".0", "#frag"][n % 6]),
+                "-" => k[..k.len() - 1 - (n % 2)].to_string(),
+                _ => {
+                    if n % 2 == 0 {
+                        k.to_uppercase()
+                    } else {
+                        k.replace("https://", "HTTPS://")
+                    }
+                }
+            };
+        }
+    }
+    "https://example.com/unknown".to_string()
 }
 
 pub fn run_pred(scn: &Value) -> Value {
